@@ -69,8 +69,14 @@ def run(c: Check):
     if len(ev5) < 6:
         from vlib import Undecided
         raise Undecided("close-waiter harness recorded %d rounds" % len(ev5))
+    out6, _ = c.go_harness("internal/connlimiter", "^TestVerifC18CloseRelease$", files=["c18close_test.go"],
+                           env={"VERIF_ROUNDS": 40 if th else 12}, timeout=900)
+    ev6 = read_ndjson(out6)
+    if len(ev6) < 12 or not all(e["fired"] for e in ev6):
+        from vlib import Undecided
+        raise Undecided("close-release harness: %d rounds, hook fired in %d" % (len(ev6), sum(1 for e in ev6 if e["fired"])))
     nwire = len(ev4)
-    ev4 = ev4 + ev5
+    ev4 = ev4 + ev5 + ev6
     p4 = os.path.join(c.scratch, "c18w.ndjson")
     from vlib import write_ndjson
     write_ndjson(p4, ev4)
@@ -85,6 +91,13 @@ def run(c: Check):
         c.count_case(("closewaiter", e["round"]), nontrivial=True)
     for t in r4.tuples("NONCONF"):
         e = ev4[int(t[0]) - 1]
+        if e["ev"] == "CloseRelease":
+            c.violation({"kind": "close-release", "clause": re.findall(r'"(\w+)"', t[1])[0]},
+                        "C18 %s: a connection was closed AND the listener was closed while an Accept of that listener had found all "
+                        "%d slots taken and was about to wait: accept returned=%s (%s); another listener of the same limiter then "
+                        "served a new connection=%s (%s)" % (t[1], e["stop"], e["released"], e["err"], e["other_served"],
+                                                             e["other_err"]), e)
+            continue
         if e["ev"] == "CloseWaiter":
             c.violation({"kind": "close-waiter"},
                         "C18 %s: a Close started while an Accept of the same listener had found the counter full and was about to "
